@@ -203,7 +203,14 @@ class Suite:
         raise NotImplementedError
 
     def corpus_cases(self):
-        return []
+        """minimized past failures and the witnesses of the recorded known findings: run first, on every run
+        (harness/corpus/<property>/<suite name>/*.json, written by harness/mkcorpus.py)"""
+        d = CORPUS / PROP[0] / self.name
+        out = []
+        if d.is_dir():
+            for f in sorted(d.glob("*.json")):
+                out.append(json.loads(f.read_text())["case"])
+        return out
 
     def real(self, case) -> dict:  # observation of the real code (canonical, JSON-able)
         raise NotImplementedError
